@@ -157,6 +157,9 @@ func runServe(cs string) string {
 	if m["mix"] == "mixed" {
 		firsts = []string{"ok", "ok", "ok", "slow", "nx", "fail", "evil"}
 	}
+	if m["mix"] == "silent" { // the upstream never answers: SERVFAIL at the 6 s request deadline
+		firsts = []string{"silent"}
+	}
 	for i := range jobs {
 		f := firsts[r.Intn(len(firsts))]
 		// a few repeated names (same question from several clients) and many distinct ones
@@ -196,7 +199,7 @@ func runServe(cs string) string {
 			switch j.first {
 			case "nx":
 				wantRcode = dnsmsg.RCodeNameError
-			case "fail", "evil":
+			case "fail", "evil", "silent":
 				wantRcode = dnsmsg.RCodeServerFailure
 			}
 			if rm.Header.RCode == wantRcode {
@@ -240,9 +243,71 @@ func genServe(r *rand.Rand, thorough bool, emit func(c, cat string)) {
 			emit(fmt.Sprintf("kind=%s n=%d conc=%d mix=%s seed=%d", kind, n, []int{1, 8, 32}[r.Intn(3)], mix, r.Intn(1<<30)), kind+"-"+mix)
 		}
 	}
+	if thorough {
+		for _, kind := range listenerKinds {
+			emit(fmt.Sprintf("kind=%s n=6 conc=6 mix=silent seed=%d", kind, r.Intn(1<<30)), kind+"-silent")
+		}
+	}
+}
+
+// ---- udpsize (C09 at the listener): UDP responses respect max(512, advertised size) and truncate well-formedly
+// case : opt=<0|1> size=<advertised> k=<number of 100-octet answer records the upstream returns>
+// out  : len_ok=<0|1> tc=<0|1> an=<records present> decodes=<0|1> opt=<OPT records in the response> q=<questions>
+
+func runUdpSize(cs string) string {
+	m := kv(cs)
+	withOpt := m["opt"] == "1"
+	size, k := atoi(m["size"]), atoi(m["k"])
+	seq := atoi(m["seq"])
+	name := wireLabels([]byte(fmt.Sprintf("big%d", k)), []byte(fmt.Sprintf("u%d", seq)))
+	id := uint16(seq*17 + 3)
+	res := lfix.exchange("udp", buildQuery(id, name, 16, withOpt, size), "-", 2*time.Second)
+	if res.status != "resp" {
+		return "no-response"
+	}
+	limit := 512
+	if withOpt && size > limit {
+		limit = size
+	}
+	rm, err := dnsmsg.UnpackMsg(res.resp)
+	if err != nil {
+		return fmt.Sprintf("len_ok=%s tc=- an=- decodes=0 opt=- q=-", b2s(len(res.resp) <= limit))
+	}
+	defer dnsmsg.ReleaseMsg(rm)
+	nopt := 0
+	for _, rr := range rm.Additionals {
+		if rr.Hdr().Type == dnsmsg.TypeOPT {
+			nopt++
+		}
+	}
+	intact := 1
+	for i, rr := range rm.Answers {
+		raw, ok := rr.(*dnsmsg.RawResource)
+		if !ok || len(raw.Data) != 100 || raw.Data[0] != 99 || (i > 0 && raw.Data[1] <= rm.Answers[i-1].(*dnsmsg.RawResource).Data[1]) {
+			intact = 0
+		}
+	}
+	return fmt.Sprintf("len_ok=%s tc=%s an=%d decodes=1 opt=%d q=%d intact=%d", b2s(len(res.resp) <= limit), b2s(rm.Header.Truncated), len(rm.Answers), nopt, len(rm.Questions), intact)
+}
+
+func genUdpSize(r *rand.Rand, thorough bool, emit func(c, cat string)) {
+	n := 40
+	if thorough {
+		n = 600
+	}
+	for i := 0; i < n; i++ {
+		opt := r.Intn(3) > 0
+		size := []int{0, 100, 512, 513, 600, 1232, 1400, 2000, 4096}[r.Intn(9)]
+		if r.Intn(3) == 0 {
+			size = 400 + r.Intn(1800)
+		}
+		k := r.Intn(22)
+		emit(fmt.Sprintf("opt=%s size=%d k=%d seq=%d", b2s(opt), size, k, r.Intn(1000000)), fmt.Sprintf("opt%s", b2s(opt)))
+	}
 }
 
 func init() {
 	register("malformed", &component{gen: genMalformed, run: runMalformed, setup: listenersSetup, teardown: listenersTeardown})
 	register("serve", &component{gen: genServe, run: runServe, setup: listenersSetup, teardown: listenersTeardown})
+	register("udpsize", &component{gen: genUdpSize, run: runUdpSize, setup: listenersSetup, teardown: listenersTeardown})
 }
